@@ -112,6 +112,10 @@ type Node struct {
 	// blocks yet (unknown block => null, logs only up to its own head,
 	// "latest" = its own head).
 	ViewLag int
+	// viewFloor: what the answering replica knew when the request arrived. A
+	// chain event in the middle of a batch never makes it forget blocks that
+	// stay canonical (it is cut back to the fork point only).
+	viewFloor int
 
 	// Quiet: serve without recording anything (no request log, no announced
 	// heads). With a frozen chain, serving is then read-only and may be
@@ -170,6 +174,9 @@ func (n *Node) Reorg(depth, newLen int) {
 		n.MinForkAt = fork
 	}
 	n.canon = n.canon[:len(n.canon)-depth]
+	if n.viewFloor > len(n.canon) {
+		n.viewFloor = len(n.canon)
+	}
 	n.Reorgs++
 	n.Grow(newLen)
 }
@@ -276,6 +283,11 @@ func Summary(reqs []Request) string {
 // (i ≥ 1) is answered so that the simulator can land a chain event inside a batch.
 func (n *Node) Serve(url string, reqs []Request, between func(i int)) []Reply {
 	out := make([]Reply, len(reqs))
+	n.viewFloor = 0
+	if n.ViewLag > 0 {
+		n.viewFloor = n.viewLen()
+	}
+	defer func() { n.viewFloor = 0 }()
 	for i, r := range reqs {
 		if i > 0 && between != nil {
 			between(i)
@@ -588,6 +600,9 @@ func (n *Node) viewLen() int {
 	}
 	if l < 1 {
 		l = 1
+	}
+	if l < n.viewFloor {
+		l = n.viewFloor
 	}
 	return l
 }
